@@ -32,7 +32,7 @@ from typing import Dict, List, Optional, Set, Tuple
 
 from sa import astctor, e7, g4, registryx, sqlx, transp
 from sa.cfg import CFG
-from sa.core import AnalysisError, Finding, FuncInfo, Program, Report, program, src, walk_no_nested
+from sa.core import norm_locals, AnalysisError, Finding, FuncInfo, Program, Report, program, src, walk_no_nested
 
 TR = transp.TR
 AGG_FUNCS = [f"{TR}.visit_Aggregation", f"{TR}.visit_RegularAggregation_aggr"]
@@ -102,8 +102,29 @@ def run(rep: Report, tier: str) -> None:  # noqa: C901
     # ---- R03.4 provenance of group identifiers ----
     f = P.func(f"{TR}.visit_RegularAggregation_aggr")
     n_assign = 0
+    # the group-identifier variable = the local the GROUP BY list is built from (builder.group_by(*[... for x in <var>]))
+    gvars: Set[str] = set()
+    for c in walk_no_nested(f.node):
+        if isinstance(c, ast.Call) and isinstance(c.func, ast.Attribute) and c.func.attr == "group_by":
+            for a in c.args:
+                for x in ast.walk(a):
+                    if isinstance(x, ast.comprehension):
+                        gvars |= {y.id for y in ast.walk(x.iter) if isinstance(y, ast.Name)}
+                    elif isinstance(x, ast.Starred) and isinstance(x.value, ast.Name):
+                        gvars.add(x.value.id)
+    if not gvars:
+        raise AnalysisError("visit_RegularAggregation_aggr: no builder.group_by(...) over a local list found: R03.4 has lost its anchor")
+    # locals that hold (something derived from) the statement's output structure
+    out_tainted: Set[str] = set()
+    for _ in range(4):
+        for d in walk_no_nested(f.node):
+            if isinstance(d, (ast.Assign, ast.AnnAssign)) and d.value is not None:
+                tg = d.targets if isinstance(d, ast.Assign) else [d.target]
+                if "_get_output_dataset" in src(d.value) or any(isinstance(x, ast.Name) and x.id in out_tainted for x in ast.walk(d.value)):
+                    if not any(isinstance(t, ast.Name) and t.id in gvars for t in tg):
+                        out_tainted |= {t.id for t in tg if isinstance(t, ast.Name)}
     for n in walk_no_nested(f.node):
-        if isinstance(n, ast.Assign) and any(isinstance(t, ast.Name) and t.id == "group_ids" for t in n.targets):
+        if isinstance(n, ast.Assign) and any(isinstance(t, ast.Name) and t.id in gvars for t in n.targets):
             if isinstance(n.value, ast.List) and not n.value.elts:
                 continue
             n_assign += 1
@@ -115,15 +136,10 @@ def run(rep: Report, tier: str) -> None:  # noqa: C901
                     test = p.test
                     break
                 p = getattr(p, "_parent", None)
-            key = f"aggr-clause/group_ids/{_norm(test)}"
+            key = "aggr-clause/group_ids/" + (norm_locals(src(test), f.node).replace(" ", "") if test is not None else "always")
             names = {x.id for x in ast.walk(n.value) if isinstance(x, ast.Name)}
             rep.instance("R03.4", key, sample={"value": src(n.value)})
-            bad = "output_ds" in names or "_get_output_dataset" in src(n.value)
-            # follow one level: a name defined from the output dataset
-            for nm in names:
-                for d in walk_no_nested(f.node):
-                    if isinstance(d, ast.Assign) and any(isinstance(t, ast.Name) and t.id == nm for t in d.targets) and "_get_output_dataset" in src(d.value):
-                        bad = True
+            bad = bool(names & out_tainted) or "_get_output_dataset" in src(n.value)
             if bad:
                 rep.add(transp.fnd("R03.4", key, f, n.lineno,
                                    f"under `{src(test) if test is not None else 'always'}` the aggr clause takes its group identifiers from the statement's OUTPUT structure "
@@ -138,9 +154,28 @@ def run(rep: Report, tier: str) -> None:  # noqa: C901
                 rep.add(transp.fnd("R03.4", f"{h.name}/no-output-structure", h, c.lineno,
                                    f"{h.name} consults the statement's output structure: the groups of a nested aggregation would follow the outer result's identifiers"))
     va = P.func(f"{TR}.visit_Aggregation")
-    ids_def = [n for n in walk_no_nested(va.node) if isinstance(n, ast.Assign) and any(isinstance(t, ast.Name) and t.id == "all_ids" for t in n.targets)]
+    def _defs(name: str) -> List[ast.AST]:
+        return [n.value for n in walk_no_nested(va.node) if isinstance(n, (ast.Assign, ast.AnnAssign)) and n.value is not None
+                and any(isinstance(t, ast.Name) and t.id == name for t in (n.targets if isinstance(n, ast.Assign) else [n.target]))]
+
+    def _resolve1(e: ast.AST) -> ast.AST:
+        seen = 0
+        while isinstance(e, ast.Name) and seen < 4:
+            d = _defs(e.id)
+            if len(d) != 1:
+                break
+            e, seen = d[0], seen + 1
+        return e
+    rg = [c for c in walk_no_nested(va.node) if isinstance(c, ast.Call) and isinstance(c.func, ast.Attribute) and c.func.attr == "_resolve_group_cols" and len(c.args) >= 2]
+    universe_ok = False
+    if len(rg) == 1:
+        u = _resolve1(rg[0].args[1])
+        if isinstance(u, ast.Call) and isinstance(u.func, ast.Attribute) and u.func.attr == "get_identifiers_names" and not u.args:
+            base = _resolve1(u.func.value)
+            universe_ok = isinstance(base, ast.Call) and isinstance(base.func, ast.Attribute) and base.func.attr == "_get_dataset_structure" \
+                and len(base.args) == 1 and src(base.args[0]) == "node.operand"
     rep.instance("R03.4", "visit_Aggregation/all_ids")
-    if len(ids_def) != 1 or src(ids_def[0].value) != "ds.get_identifiers_names()":
+    if not universe_ok:
         rep.add(transp.fnd("R03.4", "visit_Aggregation/all_ids", va, va.node.lineno, "the identifier universe of a standalone aggregation is not the operand's identifiers (ds.get_identifiers_names())"))
 
     # ---- R03.5 no WHERE ----
